@@ -610,30 +610,31 @@ def maskOf (masked : Bool) (four : Bytes) : Option Key :=
     | _ => none
   else none
 
-/-- `processData()` outside a frame, with at least two octets buffered -/
-def processHeader (s : S) (o0 o1 : UInt8) : S × Bool :=
+/-- `processData()` outside a frame, with at least two octets buffered.  `buf` is `self.data`; the functions called
+from here never look at the receive buffer, so it is threaded explicitly and `S.data` is only the buffer *between*
+reads (see `dataReceived`). -/
+def processHeader (s : S) (o0 o1 : UInt8) (buf : Bytes) : S × Bytes × Bool :=
   let fin := o0.toNat / 128 = 1
   let rsv := o0.toNat / 16 % 8
   let opcode := o0.toNat % 16
   let masked := o1.toNat / 128 = 1
   let len7 := o1.toNat % 128
   let r0 := applyViolations s (headerViolations s.cfg s.insideMessage fin rsv opcode masked len7)
-  if r0.2 then (r0.1, false) else
+  if r0.2 then (r0.1, buf, false) else
   let s := r0.1
   let hl := headerLen masked len7
-  if s.data.length ≥ hl then
-    let ext := (s.data.drop 2).take (if len7 = 126 then 2 else if len7 = 127 then 8 else 0)
+  if buf.length ≥ hl then
+    let ext := (buf.drop 2).take (if len7 = 126 then 2 else if len7 = 127 then 8 else 0)
     let plen := if len7 < 126 then len7 else beNat ext
     let r1 := extLenStep s len7 plen
-    if r1.2 then (r1.1, false) else
+    if r1.2 then (r1.1, buf, false) else
     let s := r1.1
-    let mask := maskOf masked ((s.data.drop (hl - 4)).take 4)
+    let mask := maskOf masked ((buf.drop (hl - 4)).take 4)
     let h : Hdr := { opcode := opcode, fin := fin, rsv := rsv, length := plen, mask := mask }
-    let s := { s with data := s.data.drop hl, cur := some h, ptr := 0,
-                      unmask := masked && plen > 0 && s.cfg.applyMask }
+    let s := { s with cur := some h, ptr := 0, unmask := masked && plen > 0 && s.cfg.applyMask }
     let s := onFrameBegin s h
-    (s, plen = 0 || s.data.length > 0)
-  else (s, false)
+    (s, buf.drop hl, plen = 0 || (buf.drop hl).length > 0)
+  else (s, buf, false)
 
 def unmaskChunk (s : S) (h : Hdr) (chunk : Bytes) : Bytes :=
   if s.unmask then
@@ -643,44 +644,45 @@ def unmaskChunk (s : S) (h : Hdr) (chunk : Bytes) : Bytes :=
   else chunk
 
 /-- `processData()` inside a started frame -/
-def processPayload (s : S) (h : Hdr) : S × Bool :=
+def processPayload (s : S) (h : Hdr) (buf : Bytes) : S × Bytes × Bool :=
   let rest := h.length - s.ptr
-  let chunk := s.data.take rest
+  let chunk := buf.take rest
   let payload := unmaskChunk s h chunk
-  let s := { s with data := s.data.drop rest, ptr := s.ptr + chunk.length }
+  let s := { s with ptr := s.ptr + chunk.length }
   let r := onFrameData s h payload
-  if !r.2 then (r.1, false) else
+  if !r.2 then (r.1, buf.drop rest, false) else
   let r2 := if r.1.ptr = h.length then onFrameEnd r.1 h else (r.1, true)
-  if !r2.2 then (r2.1, false) else
-  (r2.1, r2.1.data.length > 0)
+  if !r2.2 then (r2.1, buf.drop rest, false) else
+  (r2.1, buf.drop rest, (buf.drop rest).length > 0)
 
 /-- `processData()`; the Bool is its return value ("call me again") -/
-def processData (s : S) : S × Bool :=
+def processData (s : S) (buf : Bytes) : S × Bytes × Bool :=
   match s.cur with
   | none =>
-    match s.data with
-    | o0 :: o1 :: _ => processHeader s o0 o1
-    | _ => (s, false)
-  | some h => processPayload s h
+    match buf with
+    | o0 :: o1 :: _ => processHeader s o0 o1 buf
+    | _ => (s, buf, false)
+  | some h => processPayload s h buf
 
 /-- `while self.processData() and self.state != STATE_CLOSED: pass` -/
-def drain : Nat → S → S
-  | 0, s => s
-  | fuel + 1, s =>
-    let (s, again) := processData s
-    if again && s.st ≠ .closed then drain fuel s else s
+def drain : Nat → S → Bytes → S × Bytes
+  | 0, s, buf => (s, buf)
+  | fuel + 1, s, buf =>
+    let r := processData s buf
+    if r.2.2 && r.1.st ≠ .closed then drain fuel r.1 r.2.1 else (r.1, r.2.1)
 
 /-- enough iterations for any buffer (every iteration that returns `true` consumes a header or payload octets or
 ends a zero-length frame) -/
-def drainFuel (s : S) : Nat := 2 * s.data.length + 4
+def drainFuel (buf : Bytes) : Nat := 2 * buf.length + 4
 
 /-- `_dataReceived(data)` after the handshake -/
 def dataReceived (s : S) (d : Bytes) : S :=
   if s.lost then s else
-  let s := { s with data := s.data ++ d }
   match s.st with
-  | .opened | .closing => drain (drainFuel s) s
-  | _ => s
+  | .opened | .closing =>
+    let r := drain (drainFuel (s.data ++ d)) { s with data := [] } (s.data ++ d)
+    { r.1 with data := r.2 }
+  | _ => { s with data := s.data ++ d }
 
 /-! ## message-level send API -/
 
